@@ -1,0 +1,149 @@
+//go:build verif
+
+package device
+
+import "fmt"
+
+// Read-only accessors on the allowed-IPs trie for the verification harness
+// (property C08, build tag verif only).  Add-only; nothing here is reachable
+// from the normal build.
+
+// VerifTrieNode is one token of the pre-order dump of a trie: either a nil
+// child slot, or a node with its cidr, stored address bytes and owner.
+type VerifTrieNode struct {
+	Nil  bool
+	Cidr uint8
+	Bits []byte
+	Peer *Peer
+}
+
+const verifTrieBudget = 1 << 16
+
+func verifDumpTrie(node *trieEntry, out []VerifTrieNode, budget *int) []VerifTrieNode {
+	if node == nil {
+		return append(out, VerifTrieNode{Nil: true})
+	}
+	if *budget <= 0 {
+		return out
+	}
+	*budget--
+	out = append(out, VerifTrieNode{Cidr: node.cidr, Bits: append([]byte{}, node.bits...), Peer: node.peer})
+	out = verifDumpTrie(node.child[0], out, budget)
+	return verifDumpTrie(node.child[1], out, budget)
+}
+
+// VerifDump returns the pre-order shape of the IPv4 and the IPv6 trie (node,
+// then child[0], then child[1]; nil slots are explicit).  ok is false if a
+// trie has more than 65536 nodes (that is, it is not a tree).
+func (table *AllowedIPs) VerifDump() (v4, v6 []VerifTrieNode, ok bool) {
+	table.mutex.RLock()
+	defer table.mutex.RUnlock()
+	b4, b6 := verifTrieBudget, verifTrieBudget
+	v4 = verifDumpTrie(table.IPv4, nil, &b4)
+	v6 = verifDumpTrie(table.IPv6, nil, &b6)
+	return v4, v6, b4 > 0 && b6 > 0
+}
+
+type verifTrieWalk struct {
+	budget  int
+	size    int
+	perPeer map[*Peer]int
+	err     string
+}
+
+func (w *verifTrieWalk) fail(format string, args ...any) {
+	if w.err == "" {
+		w.err = fmt.Sprintf(format, args...)
+	}
+}
+
+func (w *verifTrieWalk) node(node *trieEntry, slot **trieEntry, slotType uint8, path string) {
+	if node == nil || w.err != "" {
+		return
+	}
+	if w.budget <= 0 {
+		w.fail("%s: more than %d nodes (cycle?)", path, verifTrieBudget)
+		return
+	}
+	w.budget--
+	if node.parent.parentBit != slot {
+		w.fail("%s: parentBit does not point at the slot holding the node", path)
+	}
+	if node.parent.parentBitType != slotType {
+		w.fail("%s: parentBitType %d, node sits in slot type %d", path, node.parent.parentBitType, slotType)
+	}
+	if len(node.bits) != w.size {
+		w.fail("%s: %d address bytes in a %d byte trie", path, len(node.bits), w.size)
+	}
+	if int(node.cidr) > 8*w.size {
+		w.fail("%s: cidr %d", path, node.cidr)
+	}
+	if node.bitAtByte != node.cidr/8 || node.bitAtShift != 7-(node.cidr%8) {
+		w.fail("%s: bitAtByte/bitAtShift %d/%d for cidr %d", path, node.bitAtByte, node.bitAtShift, node.cidr)
+	}
+	if node.peer != nil {
+		w.perPeer[node.peer]++
+		if node.perPeerElem == nil {
+			w.fail("%s: owned node is not on its peer's list", path)
+		} else if e, _ := node.perPeerElem.Value.(*trieEntry); e != node {
+			w.fail("%s: perPeerElem does not hold the node", path)
+		}
+	} else {
+		if node.perPeerElem != nil {
+			w.fail("%s: node without owner still has a list element", path)
+		}
+		if node.child[0] == nil || node.child[1] == nil {
+			w.fail("%s: node without owner has fewer than two children", path)
+		}
+	}
+	w.node(node.child[0], &node.child[0], 0, path+"0")
+	w.node(node.child[1], &node.child[1], 1, path+"1")
+}
+
+// VerifCheckPointers checks the reverse pointers of both tries: every node's
+// parentIndirection points at the slot that holds the node (root slots have
+// type 2), the cached bit position matches the cidr, owned nodes are exactly
+// the elements of their owner's trieEntries list (each once, no stale
+// elements), and nodes without owner have two children.  peers are additional
+// peers whose lists must be consistent even if they own nothing.  Returns ""
+// if everything is consistent, otherwise a description of the first problem.
+func (table *AllowedIPs) VerifCheckPointers(peers []*Peer) string {
+	table.mutex.RLock()
+	defer table.mutex.RUnlock()
+	w := &verifTrieWalk{budget: verifTrieBudget, size: 4, perPeer: make(map[*Peer]int)}
+	w.node(table.IPv4, &table.IPv4, 2, "v4:")
+	w.size = 16
+	w.budget = verifTrieBudget
+	w.node(table.IPv6, &table.IPv6, 2, "v6:")
+	if w.err != "" {
+		return w.err
+	}
+	for _, p := range peers {
+		if _, ok := w.perPeer[p]; !ok {
+			w.perPeer[p] = 0
+		}
+	}
+	for p, want := range w.perPeer {
+		n := 0
+		for elem := p.trieEntries.Front(); elem != nil; elem = elem.Next() {
+			n++
+			if n > verifTrieBudget {
+				return "peer list does not end"
+			}
+			node, _ := elem.Value.(*trieEntry)
+			if node == nil {
+				return "peer list element without node"
+			}
+			if node.peer != p {
+				return fmt.Sprintf("peer list holds a node (cidr %d) owned by someone else", node.cidr)
+			}
+			if node.perPeerElem != elem {
+				return fmt.Sprintf("peer list element is not the node's perPeerElem (cidr %d)", node.cidr)
+			}
+		}
+		if n != want || p.trieEntries.Len() != want {
+			return fmt.Sprintf("peer list has %d elements (Len %d), the tries hold %d nodes of that peer", n, p.trieEntries.Len(), want)
+		}
+	}
+	return ""
+}
